@@ -23,16 +23,19 @@ def argSize : Cmd → Nat
     k.size + f.size
   | .zadd k sc m => k.size + sc.size + m.size
 
-/-- **engine-side conditions on a command**: its arguments are at most `V` bytes together, the clock fits an
-    `int64`, and so does the expiry time of a `Set` -/
-def ECmdOK (V : Nat) (c : Cmd) (now : Nat) : Prop :=
-  argSize c ≤ V ∧ now < 2 ^ 63 ∧
+/-- the expiry time of a `Set` fits an `int64` -/
+def TtlOK (c : Cmd) (now : Nat) : Prop :=
   match c with
   | .set _ (some _) ttl => now + ttl < 2 ^ 63
   | _ => True
 
+/-- **engine-side conditions on a command**: its arguments are at most `V` bytes together, the clock fits an
+    `int64`, and so does the expiry time of a `Set` -/
+def ECmdOK (V : Nat) (c : Cmd) (now : Nat) : Prop :=
+  argSize c ≤ V ∧ now < 2 ^ 63 ∧ TtlOK c now
+
 instance (V : Nat) (c : Cmd) (now : Nat) : Decidable (ECmdOK V c now) := by
-  unfold ECmdOK
+  unfold ECmdOK TtlOK
   cases c with
   | set k v ttl => cases v <;> infer_instance
   | _ => infer_instance
@@ -166,7 +169,7 @@ theorem sim_set (hV : V ≤ 2 ^ 25) (h : Rel dir V s kv) (now : Nat) (key : Byte
   | some v =>
     obtain ⟨hsz, hnow, httl⟩ := hc
     simp only [argSize] at hsz
-    simp only at httl
+    have httl : now + ttl < 2 ^ 63 := httl
     have he : (if ttl ≠ 0 then now + ttl else 0) < 2 ^ 63 := by split <;> omega
     have hs := encodeStr_size_le v he
     exact Sim.putReply h bid (n := key.size + v.size) hsz hV key _ _ ⟨by omega, by omega⟩
